@@ -449,6 +449,11 @@ class Facts:
 
     def lambda_fn(self, lam):
         loc = lam.d.get('fnloc')
+        fd = lam.d.get('fndecl')
+        if fd:
+            # the call operator of this very closure type (instantiations of one template share name and location)
+            for f in lam.tu.functions:
+                if f.d.get('decl') == fd and f.d.get('lambda'): return f
         for tu in [lam.tu] + self.tus:
             for f in tu.functions:
                 if f.loc == loc and f.d.get('lambda') and f.name == lam.d.get('fn'): return f
@@ -470,6 +475,11 @@ class Facts:
         out = list(self.by_sig.get(sig, []))
         if not out:
             out = [f for f in self.by_name.get(name, []) if len(f.d['params']) == len(params)]
+        if len(out) > 1:
+            # the declaration overload resolution chose (ids are per translation unit): tells apart instantiations that print alike
+            di = d.get('callee_decl') or d.get('ctor_decl')
+            same = [f for f in out if f.tu is call.tu and f.d.get('decl') == di] if di else []
+            if same: out = same
         if len(out) > 1:
             dl = d.get('callee_def') or d.get('ctor_def')
             same = [f for f in out if f.loc == dl]
